@@ -21,9 +21,10 @@ import numpy as np
 
 def run_tract(toks, rows_of, enc_elem):
     """Tractogram layer: `<id> T <op> ...` -> `<id>\t<ops>\t<step>;...\t` with
-    step = <res>#<i>=<streamlines>|<data_per_point['c'] or ~>&...
+    step = <res>#<i>=<streamlines>|<data_per_point['c'] or ~>|<data_per_streamline['m'] or ~>&...
     ops: tnew:<elems> ('-' = Tractogram()), tadd:i:j, tiadd:i:j, tcopy:i, tget:i:<idx>,
-    tset:i:k:v / tsetp:i:k:v (element k of streamlines / data_per_point['c']),
+    tset:i:k:v / tsetp:i:k:v / tsetm:i:k:v (element k of streamlines / data_per_point['c'] /
+    data_per_streamline['m']),
     tsets:i:<idx>:v / tsetsp:i:<idx>:v, tiop:i:<fn> / tiopp:i:<fn> (in-place arithmetic), tdrop:i.
     A streamline row of value v is [v, v, v]; its per-point datum is v + 1000, the per-streamline
     datum 'm' is first value + 5000."""
@@ -57,7 +58,12 @@ def run_tract(toks, rows_of, enc_elem):
             if t is None:
                 continue
             pp = enc(t.data_per_point['c']) if 'c' in t.data_per_point else '~'
-            parts.append(f'{i}={enc(t.streamlines)}|{pp}')
+            if 'm' in t.data_per_streamline:
+                m = t.data_per_streamline['m']
+                pm = '-' if len(m) == 0 else '/'.join(enc_elem(rows_of(m[r:r + 1])) for r in range(len(m)))
+            else:
+                pm = '~'
+            parts.append(f'{i}={enc(t.streamlines)}|{pp}|{pm}')
         return '&'.join(parts)
 
     def fn_apply(seq, fn):
@@ -87,6 +93,8 @@ def run_tract(toks, rows_of, enc_elem):
                 ts[int(f[1])].streamlines[int(f[2])] = int(f[3])
             elif o == 'tsetp':
                 ts[int(f[1])].data_per_point['c'][int(f[2])] = int(f[3])
+            elif o == 'tsetm':
+                ts[int(f[1])].data_per_streamline['m'][int(f[2])] = int(f[3])
             elif o == 'tsets':
                 ts[int(f[1])].streamlines[index(f[2])] = int(f[3])
             elif o == 'tsetsp':
